@@ -145,6 +145,14 @@ Theorem C04_eig_contract_instances_exist (F : rcfType) n p (W : 'M[F]_n) :
 Proof. exact: eig_top_exists. Qed.
 Print Assumptions C04_eig_contract_instances_exist.
 
+(* the side condition reads "no more pairs than positive eigenvalues" - exactly what the count rule of
+   _eigendecomposition (C10) keeps: the rank of a positive semi-definite matrix is its number of positive eigenvalues *)
+Theorem C04_rank_is_positive_eigen_count (F : rcfType) n (W : 'M[F]_n) :
+  sym W -> psd W -> exists P : 'M[F]_n, exists d : 'cV[F]_n,
+    [/\ P^T *m P = 1%:M, W = P *m diagv d *m P^T, (forall i, 0 <= d i 0) & \rank W = #|[set i | 0 < d i 0]|].
+Proof. exact: rank_is_positive_eigen_count. Qed.
+Print Assumptions C04_rank_is_positive_eigen_count.
+
 (* the reduced-QR contract is satisfiable: Householder QR by induction on the dimensions (lib/MxSpectral.v, qr_exists),
    turned into functions by the choice operator of MathComp's choiceType (no axiom) *)
 Theorem C04_qr_contract_satisfiable (F : rcfType) :
